@@ -100,6 +100,11 @@ def check_write(host, acc_s, acc_a, f, blk, value, expect, units=None):
         nb = apply_write(blk, w)
     except ValueError as e:
         return ("unencodable", str(e))
+    # the device write as both clients put it on the wire (GeckoPackCommandProtocolHandler.set_value): decoded by the
+    # reference layout it must carry exactly this position and this many bytes of this value
+    why = datagram_of(w)
+    if why:
+        return ("datagram", why)
     # no bit outside the field
     old_w = int.from_bytes(blk[f.pos:f.pos + f.width], "big")
     new_w = int.from_bytes(nb[f.pos:f.pos + f.width], "big")
@@ -117,6 +122,31 @@ def check_write(host, acc_s, acc_a, f, blk, value, expect, units=None):
         return ("read-back", f"wrote {value!r} (expect {expect!r}) on field word {old_w:#x}: reference reads {got_ref!r}, "
                              f"item reads {got_acc!r}")
     return None
+
+
+_DGRAM = {}
+
+
+def datagram_of(w):
+    """None or text: the SPACK set-value datagram the clients build for the device write w = (pos, length, value)."""
+    if w in _DGRAM:
+        return _DGRAM[w]
+    from geckolib.driver import GeckoPackCommandProtocolHandler
+    from ..peers import unframe
+
+    pos, length, value = w
+    why = None
+    try:
+        h = GeckoPackCommandProtocolHandler.set_value(200, 6, 9, 9, pos, length, value, parms=("10.0.0.9", 10022, b"SPA", b"IOS"))
+        c = unframe(h.send_bytes)[2]
+        exp = b"SPACK" + bytes([200, 6, 5 + length, 0x46, 9, 9]) + pos.to_bytes(2, "big") + value.to_bytes(length, "big")
+        if c != exp:
+            why = f"device write {w} goes on the wire as {c[5:]!r}, the layout requires {exp[5:]!r}"
+    except Exception as e:  # noqa
+        why = f"device write {w}: building the datagram raised {e!r}"
+    if len(_DGRAM) < 200000:
+        _DGRAM[w] = why
+    return why
 
 
 def domain(decl, f, full):
